@@ -43,7 +43,7 @@ func TestC12(t *testing.T) {
 				if strings.HasPrefix(e, "tls-") && !hx.NeedsTLS(tr) {
 					continue
 				}
-				if e == "badpeer" && !(tr == "tcp" || tr == "ipc" || tr == "tls+tcp") {
+				if e == "badpeer" && (tr == "inproc" || tr == "vt") {
 					continue
 				}
 				if tr == "vt" && (e == "badaddr" || e == "inuse") {
@@ -61,6 +61,7 @@ func TestC12(t *testing.T) {
 				cases = append(cases, mon.CaseSpec{Name: "dialer/" + tr + "/" + e, Spec: spec{Kind: "dialer", Tran: tr, Err: e}})
 			}
 			if tr != "vt" {
+				cases = append(cases, mon.CaseSpec{Name: "reject/" + tr + "/pair-busy", Spec: spec{Kind: "pairbusy", Tran: tr}})
 				for _, side := range []string{"listen", "dial"} {
 					cases = append(cases, mon.CaseSpec{Name: "reject/" + tr + "/" + side, Spec: spec{Kind: "reject", Tran: tr, Err: side}})
 				}
@@ -84,6 +85,8 @@ func TestC12(t *testing.T) {
 			runQlen0(c, sp)
 		case "reject":
 			runReject(c, sp)
+		case "pairbusy":
+			runPairBusy(c, sp)
 		}
 		c.Sig("%s|%s|%s|%s", sp.Kind, sp.Tran, sp.Err, sp.Proto)
 	})
@@ -273,6 +276,14 @@ func runListener(c *mon.Case, sp spec) {
 		if _, ok := call(c, ctx, fu.n, 0, fu.f); !ok {
 			return
 		}
+	}
+	if !concurrently(c, ctx, 0,
+		func() { srv.SetOption(mangos.OptionMaxRecvSize, 65536) },
+		func() { l.GetOption("no-such-option") },
+		func() { l.GetOption(mangos.OptionMaxRecvSize) },
+		func() { srv.GetOption(mangos.OptionMaxRecvSize) },
+		func() { l.SetOption(mangos.OptionMaxRecvSize, 65536) }) {
+		return
 	}
 	// correct and retry
 	retry := false
@@ -541,6 +552,14 @@ func runDialer(c *mon.Case, sp spec) {
 		if _, ok := call(c, ctx, fu.n, maxT, fu.f); !ok {
 			return
 		}
+	}
+	if !concurrently(c, ctx, maxT,
+		func() { cli.SetOption(mangos.OptionReconnectTime, 5*time.Millisecond) },
+		func() { d.GetOption("no-such-option") },
+		func() { d.GetOption(mangos.OptionMaxRecvSize) },
+		func() { cli.GetOption(mangos.OptionMaxReconnectTime) },
+		func() { d.SetOption(mangos.OptionMaxReconnectTime, 5*time.Millisecond) }) {
+		return
 	}
 	// correct the cause and retry
 	retry := false
@@ -851,9 +870,53 @@ func runBadPeer(c *mon.Case, ctx, tr string, srv, cli mangos.Socket, l mangos.Li
 			k.Close()
 		}
 	}()
+	// connections that never get as far as the SP handshake: a plain TCP connect that sends nothing
+	// (no TLS hello, no HTTP request) or half a request, left open
+	host := addr[strings.Index(addr, "://")+3:]
+	if i := strings.Index(host, "/"); i >= 0 {
+		host = host[:i]
+	}
+	if tr != "ipc" {
+		for i := 0; i < 3; i++ {
+			cn, err := net.Dial("tcp", host)
+			if err != nil {
+				c.Inconclusive("setup: raw dial: %v", err)
+				return
+			}
+			if i == 1 {
+				cn.Write([]byte("GET /"))
+			}
+			keep = append(keep, cn)
+			c.Count("errors_provoked", 1)
+		}
+	}
+	if tr == "ws" || tr == "wss" {
+		// the SP-level broken peers below do not apply to the HTTP based transports
+		d, e := cli.NewDialer(addr, dopts(tr))
+		if e != nil {
+			c.Inconclusive("setup: NewDialer: %v", e)
+			return
+		}
+		if e, ok := call(c, ctx, "peer.Dial", 0, d.Dial); !ok || e != nil {
+			if ok {
+				c.Violate("not-accepting:"+ctx, "a good peer dialing while three connections stall before the HTTP/TLS handshake got %v", e)
+			}
+			return
+		}
+		if !hx.WaitAttached(c, ws, 1, "good peer after stalled ones") || !exchange(c, ctx, srv, cli) {
+			return
+		}
+		c.Count("locks_probed", hx.ProbeLocks(c, "lock-held:"+ctx+":", ctx, srv, l))
+		c.Nontrivial()
+		return
+	}
 	for i, hdr := range [][]byte{{0, 'X', 'P', 0, 0, 0x10, 0, 0}, {0, 'S', 'P', 0, 0, 0x31, 0, 0}, {0, 'S', 'P'}, {}, {0, 'S', 'P', 1, 0, 0x10, 0, 0}} {
-		cn, err := dial()
-		if err != nil {
+		var cn net.Conn
+		dk := mon.Go("raw-connect", func() (interface{}, error) { var e error; cn, e = dial(); return nil, e })
+		if !c.AwaitOrViolate("not-accepting:"+ctx+"/raw-connect-stuck", ctx+": a further raw peer completing its transport-level connect (TLS handshake) while earlier peers stall", dk.Done, mon.AwaitOpts{}) {
+			return
+		}
+		if _, err, _ := dk.Result(); err != nil {
 			c.Violate("not-accepting:"+ctx, "raw connection %d refused: %v", i, err)
 			return
 		}
@@ -883,5 +946,79 @@ func runBadPeer(c *mon.Case, ctx, tr string, srv, cli mangos.Socket, l mangos.Li
 		return
 	}
 	c.Count("locks_probed", hx.ProbeLocks(c, "lock-held:"+ctx+":", ctx, srv, l))
+	c.Nontrivial()
+}
+
+// concurrently runs pairs of calls that take the object's and the socket's locks in different
+// orders, many times, under the stuck detector: a lock-order inversion wedges both objects.
+func concurrently(c *mon.Case, ctx string, maxT time.Duration, fs ...func()) bool {
+	var wg sync.WaitGroup
+	for _, f := range fs {
+		f := f
+		wg.Add(1)
+		go func() {
+			defer wg.Done()
+			for i := 0; i < 300; i++ {
+				f()
+			}
+		}()
+	}
+	k := mon.Go("concurrent-calls", func() (interface{}, error) { wg.Wait(); return nil, nil })
+	ok := c.AwaitOrViolate("wedged:"+ctx+"/concurrent-option-calls", ctx+": option calls on the endpoint and on its socket issued concurrently", k.Done, mon.AwaitOpts{MaxTimer: maxT, Ignore: []string{"internal/core.(*dialer).redial", "internal/core.(*dialer).dial"}})
+	c.Count("followup_calls", 300*len(fs))
+	return ok
+}
+
+// runPairBusy: a PAIR socket that already has its peer dials a second address; the protocol refuses
+// that connection each time it is made.  The refusal must not silence the dialer: once the first
+// peer has gone, the second dialer connects and the conversation moves over.
+func runPairBusy(c *mon.Case, sp spec) {
+	tr := sp.Tran
+	ctx := "reject/" + tr + "/pair-busy"
+	a, b1, b2 := hx.MustSock(c, "pair"), hx.MustSock(c, "pair"), hx.MustSock(c, "pair")
+	a.SetOption(mangos.OptionReconnectTime, 5*time.Millisecond)
+	a.SetOption(mangos.OptionMaxReconnectTime, 5*time.Millisecond)
+	wa, w2 := hx.WatchPipes(a), hx.WatchPipes(b2)
+	l1, _, err := hx.Connect(b1, a, tr)
+	if err != nil {
+		c.Inconclusive("setup %s: %v", ctx, err)
+		return
+	}
+	if !hx.WaitAttached(c, wa, 1, "first peer") {
+		return
+	}
+	l2, err := b2.NewListener(hx.ListenAddr(tr), lopts(tr))
+	if err == nil {
+		err = l2.Listen()
+	}
+	if err != nil {
+		c.Inconclusive("setup %s: %v", ctx, err)
+		return
+	}
+	a.SetOption(mangos.OptionDialAsynch, true)
+	d2, err := a.NewDialer(l2.Address(), dopts(tr))
+	if err == nil {
+		err = d2.Dial()
+	}
+	if err != nil {
+		c.Violate("wrong-error:"+ctx, "asynchronous Dial of the second address returned %v", err)
+		return
+	}
+	// let the second dialer be refused a few times (the peer side sees connections come and go)
+	mon.Await(func() bool { return w2.Attached() >= 2 }, mon.AwaitOpts{Watchdog: 3 * time.Second})
+	c.Count("errors_provoked", w2.Attached())
+	if !exchange(c, ctx, a, b1) {
+		return
+	}
+	// the first peer goes away: the refused dialer must take over
+	l1.Close()
+	b1.Close()
+	if !c.AwaitOrViolate("not-carrying-on:"+ctx, ctx+": the dialer that had been refused connecting once the first peer has gone", func() bool { return wa.Live() == 1 && wa.Attached() >= 2 }, mon.AwaitOpts{MaxTimer: 5 * time.Millisecond, Ignore: []string{"internal/core.(*dialer)"}}) {
+		return
+	}
+	if !exchange(c, ctx, a, b2) {
+		return
+	}
+	c.Count("locks_probed", hx.ProbeLocks(c, "lock-held:"+ctx+":", ctx, a, d2))
 	c.Nontrivial()
 }
